@@ -47,8 +47,8 @@ def gen_cases(spec, ctx):
             if tb != ta:
                 pass     # same data pair, second file written in another format
             for sa, sb in itertools.product(SELECT, repeat=2):
-                ea = formats.EXT[ta] if sa == "none" else r.choice([formats.EXT[ta], ".dat", _misleading(r, ta)])
-                eb = formats.EXT[tb] if sb == "none" else r.choice([formats.EXT[tb], ".dat", _misleading(r, tb)])
+                ea = _guessable_name(r, ta) if sa == "none" else r.choice([formats.EXT[ta], ".dat", _misleading(r, ta)])
+                eb = _guessable_name(r, tb) if sb == "none" else r.choice([formats.EXT[tb], ".dat", _misleading(r, tb)])
                 yield {"kind": "grid", "ta": ta, "tb": tb, "a": a, "b": b, "sa": sa, "sb": sb, "ea": ea, "eb": eb,
                        "ds": r.choice(gen.DS), "le": r.choice(gen.LE), "mode": r.choice([[], [], ["-e"], ["-d"], ["-j"]]),
                        # colour: left to the default (on exactly when stdout is a terminal), forced on, forced off
@@ -59,6 +59,22 @@ def gen_cases(spec, ctx):
         a, b = formats.gen_pair_for_type(r, t, equal=r.random() < 0.1)
         yield {"kind": "alias", "ta": t, "tb": t, "a": a, "b": b, "le": r.choice(gen.LE), "mode": r.choice([[], ["-e"], ["-d"]]),
                "fmt": r.choice([None, None, "json", "yaml", "xml"])}
+
+
+ALT_EXT = {"yaml": [".yml", ".YAML"], "pickle": [".pickle"], "html": [".htm", ".HTML"], "json": [".JSON"], "xml": [".XML"],
+           "csv": [".CSV"], "json5": [], "plist": []}
+
+
+def _guessable_name(r, t):
+    """File-name endings from which the type has to be guessed: the usual extension, its registered aliases, other letter case,
+    and names with a blank / a non-ASCII letter / a second dot in them."""
+    ext = formats.EXT[t]
+    x = r.random()
+    if x < 0.5:
+        return ext
+    if x < 0.7 and ALT_EXT.get(t):
+        return r.choice(ALT_EXT[t])
+    return r.choice([" with blank", "-\u00e9t\u00e9", ".v2.final", "-(1)"]) + ext
 
 
 def _misleading(r, t):
@@ -184,6 +200,8 @@ def check(case, ctx):
                 for which, sel, t, ext in (("first", case["sa"], case["ta"], case["ea"]), ("second", case["sb"], case["tb"], case["eb"])):
                     if sel != "none" and ext != formats.EXT[t]:
                         ctx.count(f"explicit_type_overrides_name:{which}")
+                    if sel == "none" and ext != formats.EXT[t]:
+                        ctx.count("type_guessed_from_an_unusual_name")
             if res.exc is not None and lib_exc is not None and type(res.exc) is type(lib_exc):
                 if ctx is not None:
                     ctx.count("both_raised_same (rendering errors are C13's)")
